@@ -341,6 +341,30 @@ static void fixed_signal_connect()
     out += " Q:pf=" + std::to_string(addr(pf(x)) == &x) + ",hide=" + std::to_string(addr(sigc::hide(pf)(x, 1)) == &x)
          + ",bind=" + std::to_string(addr(sigc::bind(sigc::ptr_fun(&sc_ref2), 4L)(x)) == &x);
   }
+  {
+    // methods of every cv-flavour inherited from a base that is not a trackable, bound to a trackable
+    // object: the slot is tracked all the same
+    struct VB { long v() volatile { return 1; } long cv() const volatile { return 2; } long c() const { return 3; } long n() { return 4; } };
+    struct VT : public VB, public sigc::trackable {};
+    std::string r;
+    { auto* t = new VT; sigc::slot<long()> s = sigc::mem_fun(*t, &VB::v); long a = s(); delete t; r += std::to_string(a) + (s.empty() ? "e" : "L"); }
+    { auto* t = new VT; sigc::slot<long()> s = sigc::mem_fun(*t, &VB::cv); long a = s(); delete t; r += std::to_string(a) + (s.empty() ? "e" : "L"); }
+    { auto* t = new VT; sigc::slot<long()> s = sigc::mem_fun(*t, &VB::c); long a = s(); delete t; r += std::to_string(a) + (s.empty() ? "e" : "L"); }
+    { auto* t = new VT; sigc::slot<long()> s = sigc::mem_fun(*t, &VB::n); long a = s(); delete t; r += std::to_string(a) + (s.empty() ? "e" : "L"); }
+    { auto* t = new VT; sigc::slot<long(long)> s = sigc::hide(sigc::mem_fun(*t, &VB::v)); delete t; r += (s.empty() ? "e" : "L"); }
+    out += " V:" + r;
+  }
+  {
+    // results narrower than the slot's result type come back converted, through the type-erased call
+    sigc::slot<long()> s1 = []() { return (short)-7; };
+    sigc::slot<long()> s2 = []() { return true; };
+    sigc::slot<long()> s3 = []() { return (signed char)-3; };
+    sigc::slot<int()> s4 = []() { return (unsigned char)200; };
+    sigc::slot<double()> s5 = []() { return 2.5f; };
+    sigc::signal<long()> g; g.connect([]() { return (short)-9; });
+    out += " N:" + std::to_string(s1()) + "," + std::to_string(s2()) + "," + std::to_string(s3()) + "," + std::to_string(s4())
+         + "," + std::to_string((int)(s5() * 10)) + "," + std::to_string(g.emit());
+  }
   printf("fixed sigconn %s\n", out.c_str());
   fflush(stdout);
 }
